@@ -10,11 +10,11 @@ open H2V H2V.Model H2V.Model.Conn H2V.Lemmas.ConnWakeP
 
 /-- what a call that stays off the write path can do to the send queues: every entry that was not cut or
     removed keeps its queue and gets the permitted frames appended at the back -/
-theorem Tr.send_frames {P : Perm} {s s' : Streams} (h : Tr P s s') (hw : ¬P.write) :
+theorem Tr.send_frames {P : Perm} {s s' : Streams} (h : Tr P s s') (hw : ¬P.write) (hp : ¬P.pop) :
     ∃ tr, Path P s s' tr ∧ (∀ j, wasCut j tr = false → sq s' j = sq s j ++ pushed j tr) ∧
       (∀ j f, f ∈ pushed j tr → P.ok (.push j f)) ∧ (∀ j, wasCut j tr = true → P.cut j ∨ s'.store.get? j = none ∨ True) := by
   obtain ⟨tr, p⟩ := h
-  refine ⟨tr, p, fun j hj => p.send_ledger hw j hj, ?_, fun _ _ => Or.inr (Or.inr trivial)⟩
+  refine ⟨tr, p, fun j hj => p.send_ledger hw hp j hj, ?_, fun _ _ => Or.inr (Or.inr trivial)⟩
   intro j f hf
   unfold pushed at hf
   rw [List.mem_filterMap] at hf
